@@ -219,13 +219,29 @@ def _memo_lark():
         C.lark = _LarkMemo(C.lark)
 
 
+REPEAT_DIFFS = []      # schema texts whose SECOND compilation in this process differed from the first (read by c11)
+
+
 def impl_compile(text):
+    """compile_lvs(text), twice: a compilation is a function of the text, so the second result (the one handed on, which
+    every correspondence and oracle downstream then judges) must be the first one again"""
     from ndn.app_support.light_versec import compile_lvs
     _memo_lark()
+
+    def once():
+        try:
+            return ('ok', compile_lvs(text))
+        except Exception as e:   # noqa
+            return ('err', exc_code(e), type(e).__name__ + ': ' + str(e)[:120])
+    r1 = once()
+    r2 = once()
     try:
-        return ('ok', compile_lvs(text))
-    except Exception as e:   # noqa
-        return ('err', exc_code(e), type(e).__name__ + ': ' + str(e)[:120])
+        same = (r1[0] == r2[0]) and (r1[0] == 'err' and r1[1] == r2[1] or r1[0] == 'ok' and bytes(r1[1].encode()) == bytes(r2[1].encode()))
+    except Exception:   # noqa
+        same = False
+    if not same:
+        REPEAT_DIFFS.append(text)
+    return r2
 
 
 def impl_checker(model, fns):
